@@ -265,6 +265,32 @@ func (r *RawConn) Write(b []byte, chunks []int) error {
 	return nil
 }
 
+// WritePaced is Write with a pause after every chunk, so that the chunks reach the peer as
+// separate reads.
+func (r *RawConn) WritePaced(b []byte, chunks []int, gap time.Duration) error {
+	for _, n := range chunks {
+		if len(b) == 0 {
+			break
+		}
+		if n > len(b) {
+			n = len(b)
+		}
+		if n <= 0 {
+			n = 1
+		}
+		if _, err := r.C.Write(b[:n]); err != nil {
+			return err
+		}
+		b = b[n:]
+		time.Sleep(gap)
+	}
+	if len(b) > 0 {
+		_, err := r.C.Write(b)
+		return err
+	}
+	return nil
+}
+
 func (r *RawConn) Packets() ([][]byte, []string, bool) {
 	r.mu.Lock()
 	defer r.mu.Unlock()
